@@ -5,6 +5,7 @@ import (
 	"go/constant"
 	"go/token"
 	"go/types"
+	"os"
 	"strings"
 
 	"golang.org/x/tools/go/ssa"
@@ -23,6 +24,21 @@ type innovSite struct {
 	innAlloc  ssa.Value // the local copy of the record being compared
 	storeCall ssa.CallInstruction
 	recCtor   *ssa.Call
+	atTm      map[*ssa.BasicBlock]*Termer
+}
+
+// tmAt: terms as seen from block b (a matched record handed out of a lookup as `rec, found` is the record
+// itself where `found` is known to be true).
+func (s *innovSite) tmAt(b *ssa.BasicBlock) *Termer {
+	if s.atTm == nil {
+		s.atTm = map[*ssa.BasicBlock]*Termer{}
+	}
+	if t, ok := s.atTm[b]; ok {
+		return t
+	}
+	t := NewTermerAt(s.fn, b)
+	s.atTm[b] = t
+	return t
 }
 
 func isIfaceCall(v ssa.Value, method string) bool {
@@ -38,6 +54,9 @@ func recordField(t *Term) (string, ssa.Value, bool) {
 	b := t.Args[0]
 	if b.Op == "un" && b.Name == "&" {
 		inner := b.Args[0]
+		for (inner.Op == "un" && inner.Name == "&") || (inner.Op == "phi" && len(inner.Args) == 1) {
+			inner = inner.Args[0] // a copy of a copy (the record handed out of a lookup)
+		}
 		if inner.Op == "elem" && inner.Args[0].Op == "call" && inner.Args[0].Name == "iface.Innovations" {
 			return t.Name, b.V, true
 		}
@@ -57,13 +76,23 @@ func (r *Run) innovSiteOf(name, kind string) *innovSite {
 	for _, ci := range CallsTo(fn, ctor) {
 		c := ci.(*ssa.Call)
 		gc := geneCall{c, c.Call.Args}
-		it := s.tm.Of(c.Call.Args[5])
+		it := s.tmAt(c.Block()).Of(c.Call.Args[5])
 		if isIfaceCall(c.Call.Args[5], "NextInnovationNumber") {
 			s.novel = append(s.novel, gc)
 		} else if _, base, ok := recordField(it); ok {
 			s.reuse = append(s.reuse, gc)
 			s.innAlloc = base
 		} else {
+			if os.Getenv("NEAT_DEBUG_TERM") != "" {
+				var dump func(t *Term, ind string)
+				dump = func(t *Term, ind string) {
+					fmt.Printf("%s%s name=%q idx=%d V=%T\n", ind, t.Op, t.Name, t.Idx, t.V)
+					for _, a := range t.Args {
+						dump(a, ind+"  ")
+					}
+				}
+				dump(it, "")
+			}
 			r.Bad(name+".number-origin", p.Pos(c.Pos()), "a gene is created with innovation number "+it.String()+", which is neither a freshly issued number nor the number of a matched innovation record")
 		}
 	}
@@ -484,7 +513,7 @@ func c03Core(p *Prog, r *Run, sums *Summaries) {
 				}
 				f1, f2 := "", ""
 				for _, gc := range s.reuse {
-					f, _, _ := recordField(s.tm.Of(gc.args[5]))
+					f, _, _ := recordField(s.tmAt(gc.call.Block()).Of(gc.args[5]))
 					if role(gc) == 1 {
 						f1 = f
 					} else {
@@ -500,7 +529,7 @@ func c03Core(p *Prog, r *Run, sums *Summaries) {
 						continue
 					}
 					nn := gc.args[3].(*ssa.Call)
-					idt := s.tm.Of(nn.Call.Args[0])
+					idt := s.tmAt(nn.Block()).Of(nn.Call.Args[0])
 					f, _, isRec := recordField(idt)
 					okId := isIfaceCall(nn.Call.Args[0], "NextNodeId") || (isRec && f == "NewNodeId")
 					isReuse := false
@@ -518,7 +547,7 @@ func c03Core(p *Prog, r *Run, sums *Summaries) {
 				}
 			} else if s.kind == "link" {
 				for _, gc := range s.reuse {
-					f, _, _ := recordField(s.tm.Of(gc.args[5]))
+					f, _, _ := recordField(s.tmAt(gc.call.Block()).Of(gc.args[5]))
 					r.Check(f == "InnovationNum", x[0]+".reuse.number", p.Pos(gc.call.Pos()), "the reused number is the record's InnovationNum", "the reused gene takes record field "+f)
 				}
 			}
@@ -539,7 +568,9 @@ func c03Core(p *Prog, r *Run, sums *Summaries) {
 				continue
 			}
 			gc := s.reuse[0]
-			conds := loopGuardsOnly(Guards(gc.call.Block()), s.innLoop)
+			// the outcomes known where the gene is created; when the match is handed out of the scan as a flag
+			// (`rec, found := lookup(...)`; `if found {…}`), what held on the edges that set the flag holds too
+			conds := loopGuardsOnly(effGuards(gc.call.Block()), s.innLoop)
 			got := map[string]bool{}
 			var inV, outV, recV ssa.Value
 			if s.kind == "link" {
@@ -635,7 +666,20 @@ func c03Core(p *Prog, r *Run, sums *Summaries) {
 						continue
 					}
 					if !(sx == gc.call.Block() || b == gc.call.Block() || gc.call.Block().Dominates(b)) {
-						okExit = false
+						// leaving with the match flag raised is leaving "through the match"
+						viaFlag := false
+						for _, g := range Guards(gc.call.Block()) {
+							if fl, w, okF := boolFlagOf(g.Cond); okF && g.True == w {
+								for _, fs := range flagSites(fl, true) {
+									if (fs.From == b && fs.To == sx) || (s.innLoop.Blocks[fs.From] && !s.innLoop.Blocks[fs.To] && fs.From == b) || (fs.From == sx && len(sx.Preds) == 1) {
+										viaFlag = true
+									}
+								}
+							}
+						}
+						if !viaFlag {
+							okExit = false
+						}
 					}
 				}
 			}
